@@ -7,6 +7,15 @@ props = [json.loads(l) for l in open(os.path.join(HERE, "properties.jsonl"))]
 
 # id -> (level, technique, level text, level note, design ref)
 CLAIMS = {
+    "C10": ("model_checking",
+            "snapshot/rebuild at every Step boundary with TLC carrying the state + bit-identical twin + parallel CPUs under the Go race detector, every trace validated by TLC",
+            "Programs of all instruction classes are stepped while the CPU object is rebuilt from copies of States, memory and "
+            "the pending request before almost every Step; the TLA+ trace specification carries its own state across the run "
+            "(hidden state shows up as a rejected Step) and a never-rebuilt twin must stay bit-identical. 2..16 CPUs run from "
+            "separate goroutines in a -race build, each trace validated independently.",
+            "Data-race freedom is decided by the Go race detector on the produced executions; TLA+ contributes the per-CPU "
+            "oracle. Programs generated, snapshot points enumerated per run.",
+            "DESIGN.md section 3 C10"),
     "C09": ("model_checking",
             "closed-form whole-operation operators (Z80Block) checked by TLC against iterated Step (MC_Block) + per-Step and whole-run trace validation",
             "TLC checks on the specification that iterating Step equals the closed form of LDIR/LDDR/CPIR/CPDR/INIR/INDR/OTIR/"
